@@ -183,6 +183,8 @@ class Model:
             k = self.I._hashable(key)
             if k in v:
                 return v[k]
+            if ("each", to_term(key)) in v:
+                return v[("each", to_term(key))]
             if isinstance(v, DefaultDict) and v.make() is not None:
                 v[k] = v.make()
                 return v[k]
@@ -297,6 +299,14 @@ class Model:
         if isinstance(container, dict):
             if isinstance(item, (str, int)) and all(isinstance(k, (str, int)) for k in container):
                 return T.C(item in container)
+            if not container:
+                return T.FALSE
+            hk = self.I._hashable(item)
+            try:
+                if hk in container or ("each", to_term(item)) in container:
+                    return T.TRUE
+            except TypeError:
+                pass
         if isinstance(container, str) and isinstance(item, str):
             return T.C(item in container)
         return ("in", to_term(item), to_term(container))
